@@ -71,7 +71,41 @@ def run(prog):
             if len(pair) == 2:
                 idx_terms.append(tuple(pair))
     verdict, detail = UNDECIDED, "quantifier idiom not recognised (calls: %s)" % sorted(set(names))[:12]
-    if adj:
+    # combinator form: clause.iter().enumerate().any(|(i, a)| clause[i + 1..].iter().any(|b| a ~ b))
+    comb = None
+    if not adj and "any" in [cs.callee.name for cs in te.calls] and "enumerate" in [cs.callee.name for cs in te.calls]:
+        for n1 in nested:
+            inner_any = [cs for cs in n1.terms.calls if cs.callee.name in ("any", "all", "find", "position")]
+            slices = [cs for cs in n1.terms.calls if cs.callee.name in ("index", "get") and len(cs.args) == 2]
+            if not inner_any:
+                continue
+            if not slices:
+                # the inner quantifier runs over the whole clause again: all ordered pairs
+                if any(cs.callee.name == "iter" and ("^" in show(cs.args[0])) for cs in n1.terms.calls):
+                    comb = ("full", None)
+                continue
+            r = strip(slices[0].args[1])
+            if isinstance(r, tuple) and r and r[0] == "agg" and (r[2] or "").endswith("RangeFrom") and len(r[4]) == 1:
+                lo = show(strip(r[4][0]))
+                if "arg2.0" in lo and "Add" in lo and lo.rstrip(").0").endswith("1"):
+                    comb = ("tail", lo)
+                elif "arg2.0" in lo:
+                    comb = ("tail-from-self", lo)
+            elif isinstance(r, tuple) and r and r[0] == "agg" and (r[2] or "").endswith("Range") and len(r[4]) == 2:
+                comb = ("window", show(r))
+    if comb and comb[0] in ("tail", "full", "tail-from-self"):
+        if comb[0] == "tail-from-self":
+            verdict, detail = UNDECIDED, "the inner quantifier starts at the element itself (%s)" % comb[1]
+        else:
+            verdict, detail = OK, "all pairs of the clause: enumerate() × %s" % ("the slice after the element" if comb[0] == "tail" else "the whole clause")
+    elif comb and comb[0] == "window":
+        if polarity_major:
+            verdict = VIOLATION
+            detail = ("the tautology test compares an element only with a bounded window after it (%s); Literal's order is "
+                      "polarity-major, so a literal and its negation are generally not that close" % comb[1][:50])
+        else:
+            verdict, detail = OK, "adjacent pairs suffice: the packed order is label-major"
+    elif adj:
         kind = "adjacent pairs only (%s)" % adj[0]
         if polarity_major:
             verdict = VIOLATION
